@@ -1,7 +1,7 @@
 import random
 from harness.checks.c15 import judge_step
 """C14 - asserting a relation has the same effect whatever lived and died before (SymbolGraph.tla)."""
-from harness.core import Ctx, replay
+from harness.core import Ctx, replay, MachineryError
 from harness.checks import sgcommon
 
 
@@ -38,7 +38,7 @@ def prefix_suffix(ctx, thorough):
         assertable = sorted({tuple(s["f"]) for h in hs[:3000] for s in h})
         if model == "univ":
             hs = [h for h in hs if any(s["f"][0] == "head_of" for s in h)] + rnd.sample(hs, 1500)
-        hs = rnd.sample(hs, min(len(hs), 8000 if thorough else 2500))
+        hs = rnd.sample(hs, min(len(hs), 8000 if thorough else 1500))
         for h in hs:
             single = {}
             facts = [list(f) for f in rnd.sample(assertable, 6)]
@@ -67,6 +67,38 @@ def prefix_suffix(ctx, thorough):
                           note="after an earlier population lived and died, assertions no longer produce exactly their closure")
 
 
+def partial_death(ctx, thorough):
+    """Ontology.tla with the Die action: part of the population dies between assertions (after a sweep / an evaluation); the
+    survivors' later assertions must produce exactly the closure over what the survivors hold."""
+    rnd = random.Random(ctx.seed + 41)
+    ctx.run_tlc("Ontology", "Ontology_mc_die_geo.cfg", expect="ok")
+    cases = []
+    for model in ("univ", "family", "geo"):
+        hs = [h for h in ctx.run_tlc("Ontology", f"Ontology_gen_die_{model}.cfg", expect="ok").json_lines() if isinstance(h, list)]
+        hs = [h for h in hs if any(s["f"][0] == "die" and any(t["f"][0] != "die" for t in h[i + 1:]) for i, s in enumerate(h))]
+        hs.sort(key=repr)
+        if len(hs) < 200:
+            raise MachineryError(f"Ontology_gen_die_{model}: only {len(hs)} histories with a death followed by an assertion")
+        for h in rnd.sample(hs, min(len(hs), 6000 if thorough else 700)):
+            cases.append({"model": model, "h": h, "form": "elem"})
+    results = replay("onto", cases)
+    ctx.replayed += len(cases)
+    for c, r in zip(cases, results):
+        bad = None
+        for k, (m, o) in enumerate(zip(c["h"], r["steps"])):
+            pr = judge_step(m, o)
+            if m["f"][0] == "die" and o.get("still_alive"):
+                pr = [f"instances {o['still_alive']} are still alive after every reference to them was dropped (collected, swept)"] + pr
+            if pr:
+                bad = {"step": k, "assertion": m["f"], "died": m.get("die"), "problems": pr, "observed": o}
+                break
+        key = ["partial-death", c["model"], [(s["f"], sorted(s.get("die", []))) for s in c["h"]]]
+        ctx.case(key, True, sample={"history": key[2]})
+        if bad:
+            ctx.violation({"case": key, **bad}, note="after part of the population died, the survivors' assertions no longer produce exactly their closure")
+    ctx.cov["partial_death_histories"] = len(cases)
+
+
 def main():
     ctx = Ctx("C14", "model_checking")
     thorough = ctx.tier == "thorough"
@@ -79,9 +111,9 @@ def main():
     ctx.run_tlc("SymbolGraph", "SymbolGraph_sw_StaleRelationIndex.cfg", expect="violation")
     ctx.run_tlc("SymbolGraph", "SymbolGraph_sw_PopIdOfNone.cfg", expect="violation")
 
-    hs1, t1 = sgcommon.histories(ctx, "SymbolGraph_gen_c14p.cfg", lambda h: True, 30000 if thorough else 3500)
+    hs1, t1 = sgcommon.histories(ctx, "SymbolGraph_gen_c14p.cfg", lambda h: True, 30000 if thorough else 2500)
     hs2, t2 = sgcommon.histories(ctx, "SymbolGraph_gen_c14.cfg", lambda h: any(s["a"] == "relate" for s in h),
-                                 10000 if thorough else 1500)
+                                 10000 if thorough else 1000)
     hs = hs1 + hs2
     ctx.cov["histories_in_bound"] = {"phased": t1, "unphased_with_relate": t2}
     cases = [{"mode": "c14", "h": h} for h in hs]
@@ -134,6 +166,7 @@ def main():
             ctx.violation({"history": c["h"], "falsy_instances": bool(c.get("falsy")), **bad}, note="effect of asserting a relation depends on the process's past")
     ctx.cov["address_reuse_observed"] = reuse
     prefix_suffix(ctx, thorough)
+    partial_death(ctx, thorough)
     v = sgcommon.validate_h1(ctx, results, names, pinned=False)
     for name, c in zip(names, cases):
         vv = v.get(name)
